@@ -36,8 +36,9 @@ func VH_C08_StartAny() {
 	e.finish()
 }
 
-// VH_C08_Seq: height 1 round 0 entered with no votes yet (0/1 header), then 3 (quick) /
-// 4 (thorough) events of any kind; later entrances are answered with empty views.
+// VH_C08_Seq: height 1 round 0 entered with no votes yet (0/1 header), then quick: 2 events
+// of any kind + 1 event without new vote numbers; thorough: 4 events of any kind. Later
+// entrances are answered with empty views.
 func VH_C08_Seq() {
 	vhOpts()
 	e := vhNewSM(true)
@@ -46,11 +47,7 @@ func VH_C08_Seq() {
 		return
 	}
 	e.check(chkC08)
-	n := 3
-	if verifrt.Thorough() {
-		n = 4
-	}
-	e.run(chkC08, vhEvents(), n)
+	e.runSeq(chkC08)
 	if e.seen&vhSeenNextHeight != 0 {
 		verifrt.Reach("C08-seq:entered-next-height")
 	}
